@@ -302,11 +302,14 @@ StartBlock ==
         /\ landed' = {} /\ phase' = "flow"
         /\ UNCHANGED <<comp, doneB, nvis, nexc, nmrg>>
 
-(* Scheduling: the pending abstract state with the smallest total depth first, the most recently pushed among equals
-   (depth-first, fall-through before jump targets).  Order does not change what is reachable; it makes the first
-   arrival at a merge point the shallowest one, so that a path that leaks is reported once, where it joins, and the
-   leak is not propagated downstream as a chain of secondary disagreements.  `work` is kept sorted by that key. *)
-Key(w) == w[3] + w[4] + w[5]
+(* Scheduling: pending abstract states are expanded in code order (smallest instruction index first), the shallowest
+   first among those for the same instruction, the most recently pushed among equals.  Order does not change what is
+   reachable; it makes the first arrival at a merge point the one that came down the straight-line code (forward
+   jumps wait until the code before their target has been interpreted) and, among several, the shallowest, so that
+   a path that leaks is reported once, where it joins, instead of the leak being propagated downstream as a chain
+   of secondary disagreements.  `work` is kept sorted by that key. *)
+Depth(w) == w[3] + w[4] + w[5]
+Key(w) == w[1] * 1024 + (IF Depth(w) > 1023 THEN 1023 ELSE Depth(w))
 Insert(wk, item) ==
   LET pos == Cardinality({k \in 1..Len(wk) : Key(wk[k]) < Key(item)})
   IN SubSeq(wk, 1, pos) \o <<item>> \o SubSeq(wk, pos + 1, Len(wk))
